@@ -72,7 +72,7 @@ def parseProgs (s : String) : List (List Op) :=
 /-- A top-level op of a worker thread: an op of the admission model (`ser`: through
 `send_serialized`), or a request to one of the one-shot ports (`Model/StopPorts`). -/
 inductive XOp where
-  | adm (op : Op) (ser : Bool)
+  | adm (op : Op) (ser : Bool) (bad : Bool := false)
   | stop (r : Option Nat)
   | kill
   deriving Repr, Inhabited
@@ -93,11 +93,12 @@ def parseXOps (t : String) : List XOp :=
     match piece with
     | 'k' :: _ => some .kill
     | 't' :: r => some (.stop (String.ofList r).toNat?)
+    | 'z' :: 'b' :: _ => some (.adm (Op.send [] false false) true true)
     | 'z' :: _ => some (.adm (Op.send [] false false) true)
     | _ => (parseOps piece).1.head?.map (fun op => .adm op false))
 
 def admOps (l : List XOp) : List Op :=
-  l.filterMap (fun x => match x with | .adm op _ => some op | _ => none)
+  l.filterMap (fun x => match x with | .adm op _ _ => some op | _ => none)
 
 /-! ### model side -/
 
@@ -178,6 +179,8 @@ structure Case where
   overPort : Nat := 0
   /-- an `rx` op reported the actor Stopping / Stopped -/
   gone : Bool := false
+  /-- ids of the serialized sends whose payload the actor cannot decode (`zb`) -/
+  garbage : List Nat := []
   drainClosed : Bool := false     -- some `drain.close` step was executed
   raced : Bool := false           -- a drain.close was executed while another op was in flight
   line : Nat := 0
@@ -201,6 +204,10 @@ structure St where
   ctl : List (Option XOp) := []
   /-- the worker's current top-level op goes through `send_serialized` -/
   serNow : List Bool := []
+  /-- … with an undecodable payload -/
+  badNow : List Bool := []
+  /-- model side: ids of the undecodable messages -/
+  garbage : List Nat := []
   /-- model and implementation already disagreed in this case: the rest of the case is not
   compared any more (one DIFF per case), the oracle still judges the implementation -/
   diverged : Bool := false
@@ -233,15 +240,19 @@ model's ghost `seenOk`); the remaining clauses concern return values the model d
 def oracleEnd (c : Case) (word : Word) (handled : List Nat) (sup : List String) (alive : Bool) : List String :=
   let drained := (sup.filter (· == "Terminated:Drained")).length
   let obs : Obs :=
-    { rets := c.rets.filterMap (fun r => do
+    -- an undecodable serialized message is accepted, consumed at its turn and never reaches `handle`
+    -- (`userHandled`): it is not a message of the actor's type, C02's "handled exactly once" is not owed
+    { rets := (c.rets.filter (fun r => !c.garbage.contains r.id)).filterMap (fun r => do
         let k ← parseKind? r.kind; let res ← parseRes? r.res
-        pure ⟨k, r.id, res, r.late, r.seenOk⟩),
+        pure ⟨k, r.id, res, r.late, r.seenOk.filter (fun i => !c.garbage.contains i)⟩),
       handled := handled, word := word, drainedExits := drained, otherExit := c.otherExit, alive := alive }
   obs.violations ++
   (if c.rets.all (fun r => (parseKind? r.kind).isSome && (parseRes? r.res).isSome) then [] else ["wrong-return"]) ++
   -- C02 (d): a wrong-type send returns InvalidActorType
   (if (c.rets.filter (·.kind == "bad")).all (·.res == "invalidType") then [] else ["bad-accepted"]) ++
   (if c.drainClosed == word.closed then [] else ["closed-bit-differs"]) ++
+  (if c.garbage.all (fun i => !handled.contains i) then [] else ["undecodable-message-handled"]) ++
+  (if c.garbage.isEmpty || !sup.any (·.startsWith "Failed:") then [] else ["undecodable-message-failed-the-actor"]) ++
   -- round 4: the one-shot stop / signal ports (`StopPorts.Obs.violations`, proved empty for the model)
   (let terms := sup.filter (·.startsWith "Terminated:")
    let exit? := terms.head?.map (fun t => parseReason? (t.drop 11).toString)
@@ -344,7 +355,8 @@ def step1 (st : St) (op impl : String) : St × StepOut :=
     let h := (ps.map countResend).foldl (· + ·) 0
     let g := init (ps ++ List.replicate h [Op.send [] false false])
     let st' : St := { g := g, c := { line := 0 }, exitReason := "-", diverged := false, workers := ps.length,
-                      tops := xs, ctl := xs.map (fun _ => none), serNow := xs.map (fun _ => false) }
+                      tops := xs, ctl := xs.map (fun _ => none), serNow := xs.map (fun _ => false),
+                      badNow := xs.map (fun _ => false) }
     let ats := ",".intercalate ((List.range ps.length).map (threadAtX st'))
     (st', { model := s!"ok at={ats}" })
   | "step" :: tid :: point :: opt =>
@@ -373,8 +385,10 @@ def step1 (st : St) (op impl : String) : St × StepOut :=
           (false, { st with ps := ps', ctl := st.ctl.set i none }, s!" cret kill - {if acc then "ok" else "refused"}")
         | _ =>
           match next with
-          | some (.adm _ ser) =>
-            (true, { st with tops := st.tops.set i ((st.tops[i]?.getD []).drop 1), serNow := st.serNow.set i ser }, "")
+          | some (.adm _ ser bad) =>
+            (true, { st with tops := st.tops.set i ((st.tops[i]?.getD []).drop 1), serNow := st.serNow.set i ser,
+                             badNow := st.badNow.set i bad,
+                             garbage := if bad then st.g.sh.nextId :: st.garbage else st.garbage }, "")
           | some x =>
             (false, { st with tops := st.tops.set i ((st.tops[i]?.getD []).drop 1), ctl := st.ctl.set i (some x) }, "")
           | none => (true, st, "")
@@ -406,7 +420,8 @@ def step1 (st : St) (op impl : String) : St × StepOut :=
           | [w] => (match (parseKV w "id").bind (·.toNat?) with
                     | some id =>
                       let oks := (c.rets.filter (fun r => r.kind == "send" && r.res == "ok")).map (·.id)
-                      { c with starts := (id, c.closed, c.line, oks) :: c.starts }
+                      { c with starts := (id, c.closed, c.line, oks) :: c.starts,
+                               garbage := if (st.badNow[i]?.getD false) then id :: c.garbage else c.garbage }
                     | none => c)
           | _ => c
         else c
@@ -444,7 +459,7 @@ def step1 (st : St) (op impl : String) : St × StepOut :=
             "Drained", nh)
         else (g, ps0, "-", nh)
     let exited := alive && !g1.sh.rxOpen
-    let newH := g1.sh.handled.drop g0.sh.handled.length
+    let newH := userHandled st.garbage (g1.sh.handled.drop g0.sh.handled.length)
     let selfRets := g1.sh.rets.drop g0.sh.rets.length
     let selfS := if selfRets.isEmpty then "-" else ",".intercalate (selfRets.map (fun r => s!"{r.id}:{showRes r.res}"))
     let model := s!"handled={showNats newH} exit={if exited then reason else "-"} st={g1.sh.status} self={selfS}{accS}"
@@ -481,14 +496,14 @@ def step1 (st : St) (op impl : String) : St × StepOut :=
     -- round 4: the actor task ran until it blocked, the actor is still alive and no stop / kill was
     -- accepted so far: every send that has returned Ok by now must have been handled by now
     let quietOrc := if implSt < stDraining + 1 && !c.gone && !c.calls.any (·.accepted) then
-        quietViolations ((c.rets.filter (fun r => r.kind == "send" && r.res == "ok")).map (·.id)) c.handled
+        quietViolations ((c.rets.filter (fun r => r.kind == "send" && r.res == "ok" && !c.garbage.contains r.id)).map (·.id)) c.handled
       else []
     ({ st with g := g1, ps := ps1, c := c, exitReason := if exited then reason else st.exitReason, nextH := nextH },
       { model := model, oracle := quietOrc })
   | "end" :: _ =>
     let g := st.g
     let sup := if g.sh.rxOpen then "Started" else s!"Started,Terminated:{st.exitReason}"
-    let model := s!"word={showWord g.sh.word} st={g.sh.status} handled={showNats g.sh.handled} sup={sup} alive={b01 g.sh.rxOpen}"
+    let model := s!"word={showWord g.sh.word} st={g.sh.status} handled={showNats (userHandled st.garbage g.sh.handled)} sup={sup} alive={b01 g.sh.rxOpen}"
     -- oracle on the implementation's observations
     let iw := words impl
     let orc := match iw with
